@@ -47,7 +47,7 @@ macro_rules! qimpl {
         }
     };
 }
-qimpl!(A1 = 1, A2 = 2, A3 = 3, A4 = 4, A5 = 5, A6 = 6, A7 = 7, A8 = 8);
+qimpl!(A1 = 1, A2 = 2, A3 = 3, A4 = 4, A5 = 5, A6 = 6, A7 = 7, A8 = 8, A9 = 9, A10 = 10, A11 = 11, A12 = 12);
 
 impl Hash for QImpl {
     fn hash<H: Hasher>(&self, h: &mut H) {
@@ -235,14 +235,14 @@ impl Lockstep for QueueModel {
 }
 
 pub fn run(ctx: &'static Ctx) -> i32 {
-    let maxcap = ctx.tier.pick(5usize, 8usize);
+    let maxcap = ctx.tier.pick(5usize, 12usize);
     let nerr = ctx.tier.pick(4usize, 5usize);
-    let veclen = ctx.tier.pick(4usize, 6usize);
+    let veclen = ctx.tier.pick(4usize, 8usize);
     let mut total = ExploreStats::default();
     let mut samples = Samples::new(12);
     let mut per = vec![];
     for cap in 1..=maxcap {
-        let nerr_here = if cap > 6 { nerr.min(4) } else { nerr };
+        let nerr_here = if cap > 10 { 2 } else if cap > 8 { 3 } else if cap > 6 { nerr.min(4) } else { nerr };
         let m = QueueModel::new(Some(cap), 0, nerr_here);
         let cfg = m.cfg();
         let st = explore(ctx, m, cfg, &mut samples);
